@@ -211,6 +211,9 @@ class Engine:
             else:
                 srt = sort_of(ty)
             st.heap[k] = z3.Const(f"H0_{k}", z3.ArraySort(z3.IntSort(), srt))
+            if part == "len":
+                o = z3.Int("o!len")
+                st.pc = st.pc + (z3.ForAll([o], st.heap[k][o] >= 0),)
         return st.heap[k]
 
     def heap_read(self, st, obj, fieldname):
@@ -268,6 +271,9 @@ class Engine:
                 part = k.split("#")[1] if "#" in k else None
                 cur = self.heap_array(st, key, part)
                 st.heap[k] = z3.Const(fresh_name(f"H_{k}"), cur.sort())
+                if part == "len":
+                    o = z3.Int("o!len")
+                    st.pc = st.pc + (z3.ForAll([o], st.heap[k][o] >= 0),)
 
     def class_tag(self, st, obj):
         if "__class__" not in st.heap:
